@@ -3,6 +3,8 @@
   Property theorems only.  Protocol: lib/file/control_file.go, handler.go (see Model/Lock.lean).
 -/
 import Csvq.Lemmas.Lock
+import Csvq.Gen.FsProto
+import Csvq.Ref.FsProto
 namespace Csvq.C09
 open Csvq.Lock
 
@@ -166,6 +168,19 @@ theorem timeout_changes_nothing (s : State) (h : Reachable s) (p : Pid) (hp : s.
   · cases hr : s.rlock p
     · rfl
     · have := (inv.rl p).mp hr; rcases hp with x | x <;> simp [x, hasRLockPc] at this
+
+/-! ## tie to the source: the protocol the theorems are about is the protocol the code implements -/
+
+/-- the flags read off TryCreateLockFile / TryCreateRLockFile are those of the proved protocol -/
+theorem gen_flags_eq_ref : Csvq.Gen.lockFlags = refFlags := by decide
+
+theorem gen_lock_eq_ref : Csvq.Gen.fxTryCreateLockFile = Csvq.Ref.fxTryCreateLockFile := by decide
+theorem gen_rlock_eq_ref : Csvq.Gen.fxTryCreateRLockFile = Csvq.Ref.fxTryCreateRLockFile := by decide
+theorem gen_temp_eq_ref : Csvq.Gen.fxTryCreateTempFile = Csvq.Ref.fxTryCreateTempFile := by decide
+theorem gen_cfclose_eq_ref : Csvq.Gen.fxControlFileClose = Csvq.Ref.fxControlFileClose := by decide
+theorem gen_forread_eq_ref : Csvq.Gen.fxNewHandlerForRead = Csvq.Ref.fxNewHandlerForRead := by decide
+theorem gen_forupdate_eq_ref : Csvq.Gen.fxNewHandlerForUpdate = Csvq.Ref.fxNewHandlerForUpdate := by decide
+theorem gen_forcreate_eq_ref : Csvq.Gen.fxNewHandlerForCreate = Csvq.Ref.fxNewHandlerForCreate := by decide
 
 /-- the executable explorer used for the failing-schedule search agrees with the proved protocol
     on the reference flags for small instances (sanity; the proof above is the unbounded claim) -/
